@@ -736,6 +736,8 @@ impl MqttClientImpl {
             OperationOptions::Shutdown() => {
                 debug!("Updating desired state to Shutdown");
                 self.protocol_state.reset(&current_time);
+                // the reset has discarded a pending user DISCONNECT: there is nothing left to wait for
+                self.desired_stop_options = None;
                 self.desired_state = ClientImplState::Shutdown;
             }
             OperationOptions::AddListener(id, listener) => {
